@@ -96,12 +96,18 @@ DirectMaster(F, k, c) == IF ~InRange(k) \/ Len(c) # W THEN Fail ELSE MkPriv(F, k
 
 Hardened(idx) == idx[1] >= 128        \* i >= 2^31
 
-(* private parent -> private child.  `hard` selects the data formula; in BIP32 hard = Hardened(idx)            *)
-(* (the general form exists only to state what an implementation does that uses the wrong formula).            *)
-CKDprivG(F, par, idx, hard) ==
-    LET data == IF hard THEN <<0>> \o par.k \o idx ELSE SerP(par.K) \o idx
+(* SEC1 encodings of a point x || y.  BIP32 knows one: serP is the COMPRESSED form, whatever the software object    *)
+(* holding the key prefers for its addresses.                                                                    *)
+SerU(pt) == <<4>> \o pt
+EncP(pt, unc) == IF unc THEN SerU(pt) ELSE SerP(pt)
+
+(* private parent -> private child.  `hard` selects the data formula; in BIP32 hard = Hardened(idx).  `unc`       *)
+(* selects the encoding of the parent's point in the data and in the fingerprint; in BIP32 unc = FALSE.           *)
+(* (The general form exists only to state what an implementation does that uses the wrong formula.)              *)
+CKDprivG(F, par, idx, hard, unc) ==
+    LET data == IF hard THEN <<0>> \o par.k \o idx ELSE EncP(par.K, unc) \o idx
         qh   == QHmac(par.c, data)
-        qf   == QHash160(SerP(par.K))
+        qf   == QHash160(EncP(par.K, unc))
     IN Stage(F, <<qh, qf>>,
          LET I == Val(F, qh) IL == SubSeq(I, 1, W) IR == SubSeq(I, W + 1, 2 * W) IN
          IF CmpBE(IL, OrderN) >= 0 THEN Fail                                   \* parse256(IL) >= n
@@ -111,10 +117,10 @@ CKDprivG(F, par, idx, hard) ==
               ELSE MkPriv(F, ki, IR, par.depth + 1, SubSeq(Val(F, qf), 1, 4), idx))
 
 (* public parent -> public child (normal data formula; BIP32 defines it for idx < 2^31 only) *)
-CKDpubG(F, par, idx) ==
-    LET data == SerP(par.K) \o idx
+CKDpubG(F, par, idx, unc) ==
+    LET data == EncP(par.K, unc) \o idx
         qh   == QHmac(par.c, data)
-        qf   == QHash160(SerP(par.K))
+        qf   == QHash160(EncP(par.K, unc))
     IN Stage(F, <<qh, qf>>,
          LET I == Val(F, qh) IL == SubSeq(I, 1, W) IR == SubSeq(I, W + 1, 2 * W) IN
          IF CmpBE(IL, OrderN) >= 0 THEN Fail
@@ -124,8 +130,24 @@ CKDpubG(F, par, idx) ==
                     ELSE IF par.depth >= 255 THEN Fail
                     ELSE Ok(MkPub(Val(F, qa), IR, par.depth + 1, SubSeq(Val(F, qf), 1, 4), idx))))
 
-CKDpriv(F, par, idx) == IF ~par.priv THEN Fail ELSE CKDprivG(F, par, idx, Hardened(idx))
-CKDpub(F, par, idx)  == IF Hardened(idx) THEN Fail ELSE CKDpubG(F, Neuter(par), idx)
+CKDpriv(F, par, idx) == IF ~par.priv THEN Fail ELSE CKDprivG(F, par, idx, Hardened(idx), FALSE)
+CKDpub(F, par, idx)  == IF Hardened(idx) THEN Fail ELSE CKDpubG(F, Neuter(par), idx, FALSE)
+
+(* ----------------------------- key objects and their history -------------------------------------------------- *)
+(* An implementation holds an extended key in an object that also answers questions about it (addresses in        *)
+(* several forms, serializations, hashes, dumps) and may cache what it answered.  For BIP32 the object IS the      *)
+(* extended key: derivation is a function of (k or K, c, depth, fingerprint data, index) and of nothing else.      *)
+(*   - Observing a key does not change it:  Observe(key, o) = key  for every observer o, so any history of         *)
+(*     observations before or between derivations leaves every derived key and every serialization as it is.      *)
+(*   - Attributes of the object that are not part of the extended key - first of all whether it presents its       *)
+(*     public key / address compressed or uncompressed - do not enter derivation either: serP is the compressed    *)
+(*     encoding for every parent object.                                                                           *)
+Observers == {"address", "address_uncompressed", "address_compressed_false", "address_obj", "wif", "wif_public",
+              "wif_private", "wif_key", "public", "hash160", "fingerprint", "as_dict", "as_dict_private", "as_json",
+              "info", "repr", "public_point", "public_uncompressed", "public_byte"}
+Observe(key, o) == key
+RECURSIVE AfterHistory(_, _)
+AfterHistory(key, hist) == IF hist = <<>> THEN key ELSE AfterHistory(Observe(key, Head(hist)), Tail(hist))
 
 (* ----------------------------- path notation ----------------------------- *)
 Slash   == 47
@@ -165,10 +187,12 @@ DevPubMarker == "public-derivation-ignores-hardened-marker"
 DevPub231    == "public-derivation-accepts-index-2^31"
 DevBare      == "private-derivation-of-bare-index-ge-2^31-uses-normal-formula"
 DevWrap      == "hardened-marker-on-index-ge-2^31-not-refused"
-AllDevs      == {DevPubMarker, DevPub231, DevBare, DevWrap}
+\* an object with compressed = False hashes the UNCOMPRESSED encoding of its point: data of normal children and fingerprint
+DevUncomp    == "uncompressed-parent-object-derives-with-uncompressed-point"
+AllDevs      == {DevPubMarker, DevPub231, DevBare, DevWrap, DevUncomp}
 
 Range(s) == {s[i] : i \in 1..Len(s)}
-DevOrder == <<DevPubMarker, DevPub231, DevBare, DevWrap>>
+DevOrder == <<DevPubMarker, DevPub231, DevBare, DevWrap, DevUncomp>>
 ErrStep == [act |-> "err", idx |-> Zero4, hard |-> FALSE, lenient |-> FALSE, fired |-> <<>>]
 Step(idx, hard, lenient, fired) == [act |-> "ckd", idx |-> idx, hard |-> hard, lenient |-> lenient, fired |-> fired]
 
@@ -197,10 +221,15 @@ ElemStep(priv, pe, D) ==
            ELSE IF Is31(pe.v) /\ DevPub231 \in D THEN Step(Ser32(pe.v), FALSE, FALSE, f1 \o <<DevPub231>>)
            ELSE ErrStep
 
+ApplyStepU(F, key, st, unc) ==
+    IF st.act = "err" THEN Fail
+    ELSE IF key.priv THEN CKDprivG(F, key, st.idx, st.hard, unc)
+    ELSE CKDpubG(F, key, st.idx, unc)
+
 ApplyStep(F, key, st) ==
     IF st.act = "err" THEN Fail
-    ELSE IF key.priv THEN CKDprivG(F, key, st.idx, st.hard)
-    ELSE CKDpubG(F, key, st.idx)
+    ELSE IF key.priv THEN CKDprivG(F, key, st.idx, st.hard, FALSE)
+    ELSE CKDpubG(F, key, st.idx, FALSE)
 
 StepTok(F, key, tok, D) == ApplyStep(F, key, ElemStep(key.priv, ParseElem(tok), D))
 
